@@ -455,3 +455,33 @@ Qed.
 
 Theorem lim_checker_closed_form : forall calls, model_run [] calls = expected [] calls.
 Proof. intros calls. apply lim_expected_is_model. intros k. reflexivity. Qed.
+
+(* ---------- the server: the service is a function of configuration and destination ---------- *)
+Theorem route_spec : forall cfg d s,
+  (exists e, In e cfg /\ pe_match d e = true) ->
+  (forall e, In e cfg -> pe_match d e = true -> pe_svc e = s) ->
+  route cfg d = Some s.
+Proof.
+  intros cfg d s [e [Hin Hm]] Hall. unfold route.
+  destruct (filter (pe_match d) cfg) as [|e0 r] eqn:E.
+  - assert (In e (filter (pe_match d) cfg)) by (apply filter_In; split; assumption). rewrite E in H. destruct H.
+  - assert (In e0 (filter (pe_match d) cfg)) by (rewrite E; left; reflexivity).
+    apply filter_In in H. destruct H as [H1 H2]. f_equal. apply Hall; assumption.
+Qed.
+
+Theorem route_none : forall cfg d,
+  (forall e, In e cfg -> pe_match d e = false) -> route cfg d = None.
+Proof.
+  intros cfg d H. unfold route. destruct (filter (pe_match d) cfg) as [|e0 r] eqn:E; [reflexivity|].
+  assert (In e0 (filter (pe_match d) cfg)) by (rewrite E; left; reflexivity).
+  apply filter_In in H0. destruct H0 as [H1 H2]. rewrite (H e0 H1) in H2. discriminate.
+Qed.
+
+(* whatever connections came before (to the same port number under another protocol or host,
+   to unconfigured addresses, any number), the probe is served by route cfg probe *)
+Theorem srv_history_irrelevant : forall cfg h p,
+  nth_error (srv_run cfg (h ++ [p])) (length h) = Some (route cfg p).
+Proof.
+  intros cfg h p. unfold srv_run. rewrite map_app. rewrite nth_error_app2; rewrite map_length; [|lia].
+  replace (length h - length h)%nat with 0%nat by lia. reflexivity.
+Qed.
